@@ -48,7 +48,9 @@ func (x *Exec) evalSpec(e *SExpr, env *SpecEnv) (Term, error) {
 	saved := x.st
 	defer func() { x.st = saved }()
 	if env.st != nil {
-		x.st = env.st
+		// evaluate on a copy: calls of real functions inside a clause allocate, and
+		// that must not leak into the program state
+		x.st = env.st.clone()
 	}
 	v, err := env.ev(e)
 	if err != nil {
@@ -208,7 +210,7 @@ func (env *SpecEnv) ident(name string) (SpecVal, error) {
 			// lets name entry values: evaluated in the pre-state
 			saved := x.st
 			if env.old != nil {
-				x.st = env.old
+				x.st = env.old.clone()
 			}
 			env.letDepth++
 			v, err := env.ev(l.E)
@@ -514,7 +516,7 @@ func (env *SpecEnv) call(e *SExpr) (SpecVal, error) {
 		}
 		saved := x.st
 		if env.old != nil {
-			x.st = env.old
+			x.st = env.old.clone()
 		}
 		v, err := env.ev(e.Args[0])
 		var r SpecVal
